@@ -433,7 +433,7 @@ static void write_evidence(CheckState& st, double wall, int nviol, const std::ve
     }
     cov->set("batches", bt);
     cov->set("flavour", flavour() == "san" ? "replicas and simulator built with AddressSanitizer+UndefinedBehaviorSanitizer (no recover)" : "plain -Ofast replicas");
-    cov->set("real_code", "every line of /repo/include and /repo/src, rebuilt from the working tree into replicas A (x86-64 asm, run-time dispatch; loaded twice: BMI2/ADX and baseline), As (-mbmi2 -madx static dispatch), B (-DDISABLE_ASM, 64-bit words), C (-DDISABLE_ASM, 32-bit words)");
+    cov->set("real_code", "every line of /repo/include and /repo/src, rebuilt from the working tree into replicas A (x86-64 asm, run-time dispatch; loaded twice: BMI2/ADX and baseline), As (-mbmi2 -madx static dispatch), B (-DDISABLE_ASM, 64-bit words), C (-DDISABLE_ASM, 32-bit words), G (the asm configuration built with g++; plain flavour only), each together with the verification adapter");
     cov->set("stubs", "caller's random source (seeded stream with scripted faults), caller's hash function, store/transport of marshalled bytes, the Go wrapper's allocate-then-unmarshal protocol (re-implemented from lang/go), OS scheduler (serialising seeded scheduler), libc entry points (trapped)");
     cov->set("not_covered", "AArch64 and ARMv6-M assembly back ends cannot be executed in this sandbox (4 of 6 configurations run); no Go toolchain");
     for (auto& kv : st.extra->o) cov->set(kv.first, kv.second);
